@@ -25,6 +25,10 @@ TReread == /\ IsEvent("reread") /\ Ev.h \in DOMAIN holds
            /\ \/ Strict /\ RereadOK(holds[Ev.h], Ev.list)
               \/ Deviate(KFID) /\ ~RereadOK(holds[Ev.h], Ev.list) /\ RereadTorn(holds[Ev.h], Ev.list)
            /\ UNCHANGED vars
+(* public path (a real MasterClient against a stand-in master): the master dropped the stream, the client
+   reconnected and was sent the whole registry again.  Nothing changes for the statement: the same
+   locations are added, the client's data center is what it was configured with. *)
+TReconnect == IsEvent("reconnect") /\ Strict /\ Quiet /\ UNCHANGED vars
 TCall == IsEvent("call") /\ Strict /\ Call(Ev.p, Ev.op, Ev.v, Ev.u, Ev.api) /\ UNCHANGED hist
 TLin == /\ l <= N /\ ok /\ Trace[l].ev \in {"call", "ret"}
         /\ \E r \in pend : Lin(r.p)
@@ -38,6 +42,6 @@ TRace == /\ IsEvent("race") /\ Deviate(KFID)
          /\ \E i \in 1..Len(Ev.funcs) : Ev.funcs[i] = "weed/wdclient.(*vidMap).deleteLocation"
          /\ UNCHANGED vars
 TraceNext == \/ TraceReset \/ TraceSkip \/ TAdd \/ TDel \/ TLookup \/ THold \/ TSnap \/ TReread
-             \/ TCall \/ TLin \/ TRet \/ TRace
+             \/ TCall \/ TLin \/ TRet \/ TRace \/ TReconnect
 TraceSpec == TraceInit /\ [][TraceNext]_tvars
 =============================================================================
